@@ -12,8 +12,8 @@ NOTE = ("trusted: rustc's type-checked MIR (mir_built) as dumped by the slfacts 
 CLAIMED = {
     "C01": ("MIR path-order (must-pass-through dominance), fsync pairing and who-may-call rules",
             "order of log sync / segment fsync / atomic manifest replace / commit marker / publish / truncate on every path; "
-            "fsync pairing of written files; a shortened log is synced before success; who may write the manifest, delete files or "
-            "touch the log", "5/C01"),
+            "fsync pairing of written files; every buffered writer is flushed explicitly with the error propagated; a shortened log is "
+            "synced before success; who may write the manifest, delete files or touch the log", "5/C01"),
     "C02": ("sibling-table agreement (record codes, CRC input), loop-exit guard, lock-region and value-flow rules over MIR",
             "writer/reader agreement on the log record table and CRC input; replay leaves its loop at the first bad record; queue "
             "restored under the writer lock, cleared on a commit marker, discarded by rollback, synced on Drop; log cut to its "
@@ -22,13 +22,13 @@ CLAIMED = {
             "no error return after publish; publish only on the success arm of store+marker+sync; error arm never deletes files "
             "the on-disk manifest may reference; queue extended only after the log append; every fallible storage call in the "
             "write path propagated or listed; no write of the handle's cached state (live_docs, live_generation, queue clear) can "
-            "reach an error return", "5/C03"),
+            "reach an error return; the log-cutting entry points reach set_len on every success path (no `nothing to do` from cached state)", "5/C03"),
     "C04": ("who-may-call over the call graph and is_deleted guard dominance",
             "only commit/compact can publish or write segment/manifest files; every document-enumerating routine skips deleted "
             "documents; rollback discards; the staleness token of the cached id map is fresh and monotone (= C05 R05.c/d)", "5/C04"),
     "C05": ("lock-region must-analysis over MIR CFGs",
             "every shared-state effect of every writer entry point lies inside the writer_lock region on every path; cached live-docs "
-            "reuse is guarded by the generation comparison, and every published segment gets a generation above all manifest "
+            "reads are confined to the equal-generation arm, and every published segment gets a generation above all manifest "
             "generations (1 + max over all segments, no subset), and the segment list is only ever shortened by installing a freshly "
             "written segment, after its generation was computed (the maximum generation never decreases or repeats)", "5/C05"),
     "C06": ("lock-region pairing and call-graph who-may-call",
@@ -49,8 +49,9 @@ CLAIMED = {
     "C09": ("ADT-table check of the score algebra, value-flow of tie breakers to their validator, control-dependence of the pruning threshold on the hook parameters",
             "score expression type has only sub-additive nodes with validated tie breakers; the pruning threshold is finite only when "
             "neither a collector nor a score-adjust hook is attached; collection is not gated by the heap; the length floor of the "
-            "upper bounds is the positive minimum of the WHOLE length column with the scorer's own fallback (the remaining bound "
-            "arithmetic, incl. BMW block maxima, is not decided)", "5/C09"),
+            "upper bounds is the positive minimum of the WHOLE length column with the scorer's own fallback; no block-level bound can end "
+            "the search and block-decided skips stay within the blocks; every score leaf is freshly allocated (no two expression "
+            "nodes share one). The arithmetic of the bounds themselves is not decided", "5/C09"),
     "C10": ("decision-table extraction of the comparators by path enumeration (values touched only through comparisons), argument-order and provenance flow",
             "the finite tables the ordering is built from: missing values last in both orders; Asc keeps / Desc flips / Equal stays in "
             "the three direction helpers with (a, b) argument order; ties broken by segment then document as (self, other); Asc "
@@ -69,7 +70,8 @@ CLAIMED = {
     "C13": ("control-dependence of collector calls on cursor-key comparisons (direct and through accept callbacks), argument provenance of the suggester",
             "documents reach the aggregation collector before the cursor test; executors never prune or gate collection while a collector "
             "is attached; suggestions depend on req.suggest only; every segment's collector is finished and merged whenever it "
-            "exists (not depending on match counters or hits)", "5/C13"),
+            "exists (not depending on match counters or hits); the per-segment search runs for every segment (no dropping adapter, no "
+            "cursor-derived per-segment test)", "5/C13"),
     "C14": ("dominance of the safety check over writes and the manifest lock; field-class containment between ingestion and the safety check; decision-table extraction by path enumeration",
             "compaction refuses before touching anything; every Schema field list consumed by the segment build is examined by "
             "ensure_compact_safe (thorough tier: also under the vectors feature); the guard's per-field decision table refuses every "
@@ -83,7 +85,8 @@ CLAIMED = {
     "C16": ("panic-source enumeration over the call graph with local discharge patterns and a reasoned table; validator dominance",
             "every explicit unwrap/expect/panic!/assert!/unreachable! reachable from IndexReader::search is discharged by a local "
             "pattern or reasoned; request validators dominate segment execution; front ends enter only through IndexReader::search; "
-            "a parameter that receives an empty slice literal on the search path is never indexed directly "
+            "a parameter that receives an empty slice literal on the search path is never indexed directly; a string offset `found index + w` "
+            "takes w from the same match "
             "(compiler-inserted checks, allocation, recursion depth, termination not decided)", "5/C16"),
     "C17": ("four-way sibling-table agreement, verify-before-use dominance, codec table inversion, read-site integrity flow, panic-source enumeration",
             "segment file table agrees across write/hash/compare/remove with matching checksum names; checksum comparison dominates "
